@@ -69,7 +69,9 @@ ASSUMPTIONS = ["corrections off for the exact tie (with corrections on the rolli
                "do_cluster: the per-cluster columns log2_i / spread_i are not modelled (k-means membership); checked are "
                "the pooled columns (unchanged, exact oracle), presence / pairing of the cluster columns and, for cohorts "
                "differing only in depth and sex, that every cluster reproduces the pooled profile with spread 0"]
-TRUSTED_EXTRA = ["tabio read/write of .cnn files (C08)", "numpy apply_along_axis / vstack / hstack plumbing"]
+TRUSTED_EXTRA = ["tabio read/write of .cnn files (C08)", "numpy apply_along_axis / vstack / hstack plumbing",
+                 "corrections on (tag corr-*): numpy.random.permutation (MT19937) under the fixed seed, pandas "
+                 "rolling(center=True).median, smoothing._width2wing -- as in C04; pyfaidx slicing of the generated genome"]
 
 
 def _bins(rng, style, anti, nx=45, sexchr=True, par=False):
